@@ -44,6 +44,7 @@ type GenOpts struct {
 	InternalSig  bool // CATCH/CROAK on flags 0..5 (only where nothing is compared to a model)
 	FewSelectors bool // selector alphabet of three, so duplicate selectors are common
 	RelCatch     bool // CATCH lines with relative targets (_ ^) as well
+	PostCroak    bool // a CROAK between the INCMP lines and what closes the section: it fires while input is being handled
 }
 
 var fullOpts = GenOpts{Sinks: true, OutputSize: true, CacheSize: true, Flags: true, Errors: true, Langs: true, Sloppy: true,
@@ -484,6 +485,11 @@ func (g *appGen) genPost(node string, loaded map[string]bool, hasSink, browse bo
 		}
 		incmpTargets[target] = true
 		code = append(code, app.Instr{Op: refdec.INCMP, Sym: refdec.BS(target), Sel: refdec.BS(sel)})
+	}
+	if g.o.PostCroak && g.o.Flags && g.chance(8, "postcroak") {
+		if f, ok := g.clientFlag("postcroakflag"); ok {
+			code = append(code, app.Instr{Op: refdec.CROAK, Num: f, Mode: rapid.Bool().Draw(t, "postcroakmode")})
+		}
 	}
 	// tail
 	switch k := g.draw(20, "tail"); {
